@@ -77,6 +77,11 @@ def run(ctx):
         "the LIR layer (Props/C01Lir) is a theorem about Model/C01Lir.lean; that this model is lir/lower.rs on the scalar vocabulary rests "
         "on running it on the real MIR of every function of the class representatives and generated fragment programs and comparing with "
         "the real LIR (hook verif_hooks::c01::stage_pairs) on every run; its LIR semantics is this project's reading of the LIR",
+        "match_chains_first_match_partial (Props/C01Match) is a theorem about Model/C01MatchLower.lean, a hand model of the switch / "
+        "guard-chain arrangement of mir/lower/match_expr.rs whose decisions (chain filters, needs_default, guard switch case) are the "
+        "generated Generated/C01Match and whose source shape the translator checks fragment by fragment; that the compiled match behaves as "
+        "the arrangement says rests on the differential run of the match / match-order class representatives (JIT vs Spec) on every run; "
+        "enum values in Model/Spec carry constructor NAMES, the harness prints the same names into the Roto source",
         "the abstract CFG of Model/Dce.lean stands for mir::Item.blocks; its tie is the translator target `dce` plus running "
         "Dce.dce on the real pre-DCE CFG of every generated program (hook verif_hooks::c01::cfgs)",
     ]
